@@ -676,6 +676,8 @@ func runC16(c *Ctx) {
 	clauseLayerClosedOnlyByOwner(c, "C16.i")
 	clauseDetachWithChildren(c, "C16.j")
 	clauseStorePoolPremises(c, "C16.k")
+	clauseInodeNumbersFreedOnForget(c, "C16.l")
+	clauseMemoisedResolveDetached(c, "C16.m")
 	c.assume("go-fuse serialises nothing: handlers may race; only the lock discipline of LayerManager is decided")
 }
 
